@@ -307,7 +307,7 @@ pub fn run(ctx: &Ctx) -> i32 {
     // ternary + and * over a sub-palette of values (first representation only for the third operand)
     let sub: Vec<usize> = {
         let n = groups().len();
-        let want = ctx.tier.pick(24usize, 48usize);
+        let want = ctx.tier.pick(48usize, 96usize);
         (0..n).step_by((n / want).max(1)).collect()
     };
     let ns = sub.len() as u64;
